@@ -73,6 +73,7 @@ type Case struct {
 var (
 	workers  = flag.Int("workers", 8, "")
 	progress = flag.Bool("progress", false, "")
+	scaleExp = flag.Int("scale", 0, "multiply every aggregated value by 10^scale (values beyond the int64 range; TLC's integers cannot carry them, the order and sums scale)")
 	outMu    sync.Mutex
 	evals    atomic.Int64
 	nontriv  atomic.Int64
@@ -86,7 +87,21 @@ func emit(v any) {
 }
 
 func near(got float64, exp100 int64) bool {
+	if *scaleExp != 0 {
+		exp := float64(exp100) / 100 * math.Pow(10, float64(*scaleExp))
+		return math.Abs(got-exp) <= 1e-9*math.Max(math.Abs(exp), 1)
+	}
 	return math.Abs(got*100-float64(exp100)) < 1e-6
+}
+
+// scaled renders a decimal value of the palette times 10^scale ("2.25" -> "2.25e19", "1e1" -> "1e20").
+func scaled(v string) string {
+	if i := strings.IndexAny(v, "eE"); i >= 0 {
+		var e int
+		fmt.Sscanf(v[i+1:], "%d", &e)
+		return fmt.Sprintf("%se%d", v[:i], e+*scaleExp)
+	}
+	return fmt.Sprintf("%se%d", v, *scaleExp)
 }
 
 // compare returns "" if the QPR agrees with the expectation.
@@ -158,7 +173,11 @@ func compare(c *Case, q *seq.QPR, agg env.Agg) string {
 		case "max":
 			ok = near(g.Value, e.Max)
 		case "avg":
-			ok = math.Abs(g.Value*100*float64(e.Total)-float64(e.Sum)) < 1e-6
+			if *scaleExp != 0 {
+				ok = near(g.Value*float64(e.Total), e.Sum)
+			} else {
+				ok = math.Abs(g.Value*100*float64(e.Total)-float64(e.Sum)) < 1e-6
+			}
 		case "quantile":
 			if len(g.Quantiles) != len(e.Qs) {
 				ok = false
@@ -189,6 +208,13 @@ func runGroup(g []*Case) {
 	}
 	defer e.Close()
 	docs := cases.EnvDocs(c.Corpus)
+	if *scaleExp != 0 {
+		for i := range docs {
+			for k, v := range docs[i].Tok["v"] {
+				docs[i].Tok["v"][k] = scaled(v)
+			}
+		}
+	}
 	for pi, part := range c.Parts {
 		var bulk []env.Doc
 		for _, i := range part {
